@@ -408,6 +408,9 @@ func Main(m *testing.M, prop string) {
 	os.Exit(code)
 }
 
+// Replaying reports whether this process only replays a saved case.
+func Replaying() bool { return os.Getenv("VERIF_REPLAY") != "" }
+
 func doReplay(path string) int {
 	b, err := os.ReadFile(path)
 	if err != nil {
